@@ -624,3 +624,33 @@ Proof.
   induction (lines_from f s ts pos (split_nl text)) as [|[l q] ls IH]; [contradiction|].
   destruct ls as [|lp ls]; [exists l, q; reflexivity|]. apply IH. discriminate.
 Qed.
+
+(* ---- the three alignments, one statement each *)
+Corollary align_left f s ts pos text k line p :
+  0 <= f_cw f -> 0 <= f_sp f -> t_align ts = ALeft ->
+  nth_error (text_lines f s ts pos text) k = Some (line, p) ->
+  px (tl (fst (measure_string f s line p (t_base ts)))) = px pos.
+Proof.
+  intros H1 H2 Ha H. pose proof (text_alignment f s ts pos text k line p H1 H2 H) as A. cbn zeta in A.
+  rewrite Ha in A. tauto.
+Qed.
+
+Corollary align_right f s ts pos text k line p :
+  0 <= f_cw f -> 0 <= f_sp f -> t_align ts = ARight ->
+  nth_error (text_lines f s ts pos text) k = Some (line, p) ->
+  let bb := fst (measure_string f s line p (t_base ts)) in
+  px (tl bb) + sw (sz bb) - 1 = px pos.
+Proof.
+  intros H1 H2 Ha H. pose proof (text_alignment f s ts pos text k line p H1 H2 H) as A. cbn zeta in A |- *.
+  rewrite Ha in A. tauto.
+Qed.
+
+Corollary align_center f s ts pos text k line p :
+  0 <= f_cw f -> 0 <= f_sp f -> t_align ts = ACenter ->
+  nth_error (text_lines f s ts pos text) k = Some (line, p) ->
+  let bb := fst (measure_string f s line p (t_base ts)) in
+  -1 <= 2 * px pos - (2 * px (tl bb) + sw (sz bb) - 1) <= 1.
+Proof.
+  intros H1 H2 Ha H. pose proof (text_alignment f s ts pos text k line p H1 H2 H) as A. cbn zeta in A |- *.
+  rewrite Ha in A. tauto.
+Qed.
